@@ -250,6 +250,8 @@ func runC18(r *Run) {
 		{Name: "memory and redis", Filters: []c18Filter{{Name: "a", Prefix: "pa", ClientID: "client-a"}, {Name: "b", Prefix: "", ClientID: "client-b", Redis: "r1/0"}}},
 		{Name: "redis and memory, equal chain names", Filters: []c18Filter{{Name: "a", Prefix: "pa", ClientID: "client-a", Redis: "r1/0", Chain: "main"}, {Name: "b", Prefix: "pb", ClientID: "client-b", Chain: "main"}}},
 		{Name: "three filters", Filters: []c18Filter{{Name: "a", Prefix: "pa", ClientID: "client-a"}, {Name: "b", Prefix: "pb", ClientID: "client-b", Redis: "r1/2"}, {Name: "c", Prefix: "pc", ClientID: "client-c", Redis: "r1/3", Chain: "chain-1"}}},
+		{Name: "two redis servers, only the first filter sets a session timeout", Filters: []c18Filter{{Name: "a", Prefix: "pa", ClientID: "client-a", Redis: "r1/0", Abs: 100}, {Name: "b", Prefix: "pb", ClientID: "client-b", Redis: "r2/0"}}},
+		{Name: "memory with a timeout, then redis without", Filters: []c18Filter{{Name: "a", Prefix: "pa", ClientID: "client-a", Abs: 100}, {Name: "b", Prefix: "pb", ClientID: "client-b", Redis: "r1/0"}}},
 		{Name: "same prefix, disjoint stores", Filters: []c18Filter{{Name: "a", Prefix: "p", ClientID: "client-a", Redis: "r1/0"}, {Name: "b", Prefix: "p", ClientID: "client-b", Redis: "r2/0"}}},
 	}
 	ownKeySets(r, "[C18]")
@@ -297,6 +299,23 @@ func runC18(r *Run) {
 						continue
 					}
 					fi, fj := l.Filters[i], l.Filters[j]
+					// the filter's OWN session timeouts govern its sessions: on a Redis server no other filter uses, the expiry
+					// of the session key is the filter's absolute_session_timeout - none when it configures none
+					if fi.Redis != "" {
+						unique := true
+						for k2, fk := range l.Filters {
+							if k2 != i && fk.Redis == fi.Redis {
+								unique = false
+							}
+						}
+						parts := strings.SplitN(fi.Redis, "/", 2)
+						db := 0
+						fmt.Sscan(parts[1], &db)
+						if ttl := w.mrs[parts[0]].DB(db).TTL(sid); unique && ((fi.Abs == 0 && ttl != 0) || (fi.Abs > 0 && (ttl <= 0 || ttl > time.Duration(fi.Abs)*time.Second))) {
+							r.Violate("[C18] the sessions of a filter with a store of its own do not get that filter's own session timeouts (another filter's configuration leaks into its store)",
+								map[string]any{"layout": l, "filter": fi.Name, "absolute_session_timeout_s": fi.Abs, "expiry_of_its_session_key": ttl.String()})
+						}
+					}
 					// the client renames its cookie towards filter j (and also replays the original name)
 					for _, ck := range []string{cookieNameFor(fj.Prefix) + "=" + sid, cookieNameFor(fi.Prefix) + "=" + sid + "; " + cookieNameFor(fj.Prefix) + "=" + sid} {
 						resp := w.check(fj.Name, "/"+fj.Name+"/page", ck)
